@@ -5,7 +5,7 @@ Model: PubgrubModel/Report.lean (`Reporter.buildRecursive` & co, mutual recursio
 Vocabulary: PubgrubProofs/ReportDefs.lean (`Entails`, `DerivationTree.Sound`, `SharedConsistent`,
 `Step.conclusion/namedExternals/citedRefs/isAnd`, `conclusionOfRef`, `stepPremises`, `allRefs`).
 
-Proof: `ReportSoundAux1` (list facts), `ReportSoundAux2` (invariant `RInv` of the reporter state and the
+Proof: `ReportSoundAux1` (list facts), `ReportSoundAux2` (invariant `RepInv` of the reporter state and the
 order `Le`), `ReportSoundAux3` (specification of the four mutually recursive functions by induction on
 the fuel, `spec_all`), `ReportSoundAux4` (subtrees, `report_spec`, termination `BT_all`).
 -/
